@@ -256,7 +256,7 @@ func runMemCase(c *memCase) {
 				}
 				var nest func(d int) error
 				nest = func(d int) error {
-					return sec.WithBytes(func(b []byte) error {
+					body := func(b []byte) error {
 						if r := mc.reg(b); c.Impl != "memguard" && (r == nil || !r.mapped || r.prot == 0) {
 							ob.Seen = false
 						}
@@ -270,7 +270,12 @@ func runMemCase(c *memCase) {
 							return errors.New("action failed")
 						}
 						return nil
-					})
+					}
+					if (op.Depth+d)%2 == 1 { // every other level goes through WithBytesFunc (same access discipline, returns bytes too)
+						_, err := sec.WithBytesFunc(func(b []byte) ([]byte, error) { return nil, body(b) })
+						return err
+					}
+					return sec.WithBytes(body)
 				}
 				err := nest(op.Depth)
 				switch {
